@@ -414,8 +414,11 @@ class MultitaskMultivariateNormal(MultivariateNormal):
 
 def _normalize_index(i, dim_size: int):
     if torch.is_tensor(i):
-        # index tensors may hold negative entries as well (boolean masks are left as they are)
-        return i if i.dtype == torch.bool else torch.where(i < 0, i + dim_size, i)
+        if i.dtype == torch.bool:
+            # a mask selects the positions where it is set: the arithmetic below needs them as integer indices
+            return i.nonzero(as_tuple=True)[0]
+        # index tensors may hold negative entries as well
+        return torch.where(i < 0, i + dim_size, i)
     if i < 0:
         return dim_size + i
     else:
